@@ -1294,7 +1294,7 @@ func vC13CohortCase(t *testing.T, r *rand.Rand) map[string]any {
 		followers []*vC13Member
 	}
 	mk := func(k vC13QKey, follower bool) *vC13Member {
-		return &vC13Member{key: k, edns: r.Intn(4) != 0, d: vC13CohortDown(r, g, k, follower), rel: make(chan struct{}), done: make(chan struct{})}
+		return &vC13Member{key: k, edns: r.Intn(4) != 0, d: vC13CohortDown(r, g, k, follower)}
 	}
 	var groups []*group
 	for _, k := range keys {
@@ -1353,6 +1353,8 @@ func vC13CohortCase(t *testing.T, r *rand.Rand) map[string]any {
 			pre = append(pre, memberCoq("before", m))
 		}
 		launch := func(m *vC13Member) {
+			// channels the bubble blocks on must be made inside it
+			m.rel, m.done = make(chan struct{}), make(chan struct{})
 			go func() {
 				defer close(m.done)
 				m.rcode, m.ede, m.calls, m.scope = vC13ServeHold(c, ednsH, m.key, m.edns, false, false, m.d, func() {
